@@ -90,8 +90,11 @@ TrNew ==
   /\ UNCHANGED <<regs, pos, last, ok, ref, refi, var, st, runs, world, w0, nset, ndis, asy>>
 
 Members(b) == {x \in DOMAIN regs : regs[x].b = b /\ regs[x].kind # "rejected"}
+\* hk: the harness system logs its own setup / dispose hook (FALSE: a system that leaves the library's PROVIDED
+\* System::setup / dispose in place - no hook event, but what its accessor provides must exist after setup)
+Hk(e) == IF "hooks" \in DOMAIN e THEN e.hooks ELSE TRUE
 NoReg(e, kind) == [b |-> e.b, r |-> {}, w |-> {}, d |-> <<>>, t |-> 0, e |-> 0, nm |-> <<>>,
-                   kind |-> kind, inner |-> 0, n |-> 0, rs |-> <<>>, ws |-> <<>>]
+                   kind |-> kind, inner |-> 0, n |-> 0, rs |-> <<>>, ws |-> <<>>, hk |-> TRUE]
 \* sequences actually read / written by the harness system, ascending (as logged)
 ReadSeq(e) == SelectSeq(e.r, LAMBDA x : x \notin ToSet(e.w))
 
@@ -143,7 +146,7 @@ TrAdd ==
                                   nm |-> e.name, kind |-> IF isBatch THEN "batch" ELSE "plain",
                                   inner |-> IF isBatch THEN e.inner ELSE 0,
                                   n |-> IF isBatch THEN e.n ELSE 0,
-                                  rs |-> ReadSeq(e), ws |-> e.w])
+                                  rs |-> ReadSeq(e), ws |-> e.w, hk |-> Hk(e)])
         /\ pos' = Append(pos, e.place)
         /\ lay' = [lay EXCEPT ![b] = Placed1(@, e.place, id)]
         /\ names' = IF e.name = <<>> THEN names ELSE [names EXCEPT ![b] = (e.name :> id) @@ @]
@@ -431,7 +434,10 @@ TrEnd ==
                    \* (transitive) dependent of a panicking system ran; nothing left borrowed
                    !.c14 = @ /\ e.who \in Pans /\ e.free
                                /\ (\A s \in Sys : runs[s] <= Expected(s, mode))
-                               /\ (\A s \in Sys : \A p \in Pans : (regs[s].b = regs[p].b /\ DependsOn(regs, s, p)) => st[s] = "idle"),
+                               /\ (\A s \in Sys : \A p \in Pans : (regs[s].b = regs[p].b /\ DependsOn(regs, s, p)) => st[s] = "idle")
+                               \* thread-local systems come after ALL ordinary systems of their dispatcher (C12): when one
+                               \* of those panicked, none of them ran in this dispatch
+                               /\ (\A p \in Pans : regs[p].kind \in {"plain", "batch"} => \A x \in ToSet(tls[regs[p].b]) : st[x] = "idle"),
                    \* a panic that no harness-injected panic explains: the parallel run differs from the
                    \* sequential one (C05); if it is a borrow conflict, a sibling caused it (C01)
                    !.c05 = @ /\ WorldOf(e) = world /\ Pans # {},
@@ -441,7 +447,7 @@ TrEnd ==
 (***************************************************************************)
 (* SETUP / DISPOSE (C13)                                                   *)
 (***************************************************************************)
-Live13 == {s \in Sys : regs[s].kind \in {"plain", "tl"}}      \* systems with observable hooks, any depth
+Live13 == {s \in Sys : regs[s].kind \in {"plain", "tl"} /\ regs[s].hk}      \* systems with observable hooks, any depth
 AllAcc == UNION {regs[s].r \cup regs[s].w : s \in {x \in Sys : regs[x].kind # "rejected"}}
 
 \* the world as it is before Dispatcher::setup (any subset of the resources pre-exists)
